@@ -71,11 +71,12 @@ func propDefs() map[string]*PropDef {
 	}
 	m["C03"] = &PropDef{
 		ID:    "C03",
-		Funcs: append(wrapperFuncs([]string{"Range", "restoreKey"}, safetyInc), append(seqFuncsOnly("rangeScan", safetyInc), FuncCheck{Fn: "maximum", Layer: "C", Include: safetyInc}, FuncCheck{Fn: "longestCommonPrefix", Layer: "C", Include: safetyInc})...),
+		Funcs: append(wrapperFuncs([]string{"Range", "restoreKey"}, safetyInc), append(seqFuncsOnly("rangeScan", append([]string{`/within_bounds`}, safetyInc...)), FuncCheck{Fn: "maximum", Layer: "C", Include: safetyInc}, FuncCheck{Fn: "longestCommonPrefix", Layer: "C", Include: safetyInc})...),
 		Floor: 1500,
 		Assumptions: []string{
 			"SCOPE: decides the 'returns normally' half of C03 and the empty-tree clause: Range of all six kinds, the closure it returns (rangeScan$1 per leaf class; the single-key closure of the numeric kinds) and their helpers carry an obligation at every index, slice, nil dereference, cast, unsafe.Slice, explicit panic and callee precondition, for every pair of bounds (empty, reversed, equal) and every tree satisfying WF1 - including the empty tree, where Range must not descend (defect F3, fixed: maximum() and the scan require a non-nil root, which the constructor must establish: captures clause); Range is proved to write nothing in the tree",
-			"NOT decided: which keys are yielded (none missing / none outside / order). That needs the path-coherence invariant (rung 2) and a sequence-valued ghost result; defect F4 (fixed) was of that kind and is guarded by the seeded canary only through its safety symptoms",
+			"'none outside', one clause of the functional half, is decided: whenever the scan calls yield, the leaf's stored key is neither below the start bound nor above the end bound in byte order (within_bounds at the yield call; model of bytes.Compare: sign of the result = lexicographic order, total)",
+			"NOT decided: that no key inside the bounds is missed, and the order of delivery. That needs the path-coherence invariant (rung 2) and a sequence-valued ghost result; defect F4 (fixed) was of that kind and is guarded by the seeded canary only through its safety symptoms",
 			"assumed: WF1 preservation, LinkedLive, as in C01; the overflow obligation of the per-entry depth counter is generated but not claimed",
 		},
 		DesignRef: "DESIGN.md section 5 C03, section 12",
